@@ -109,11 +109,31 @@ func (g *gen) runActivation() {
 		for _, f := range fns {
 			g.emitf("active %d %s", sh, f)
 		}
+		// timestamps of the notifications: absent (0), rising, falling, or only on the first one — activation must
+		// follow the confirmed EPOCH whatever they are
+		tsOf := func(k int) (uint64, bool) {
+			switch count % 4 {
+			case 1:
+				return uint64(1000 + 100*k), true
+			case 2:
+				return uint64(1000 - 100*k), true
+			case 3:
+				if k == 0 {
+					return 1600000000, true
+				}
+				return 0, true
+			}
+			return 0, false
+		}
 		for k, e := range j.seq {
-			if k%2 == 0 {
-				g.emitf("epoch * %d", e)
+			sel := "*"
+			if k%2 != 0 {
+				sel = strconv.Itoa(sh)
+			}
+			if ts, ok := tsOf(k); ok {
+				g.emitf("epoch %s %d %d", sel, e, ts)
 			} else {
-				g.emitf("epoch %d %d", sh, e)
+				g.emitf("epoch %s %d", sel, e)
 			}
 			for _, f := range fns {
 				g.emitf("active %d %s", sh, f)
